@@ -151,7 +151,11 @@ func item(size int) *pconn.Item {
 	defer itemMu.Unlock()
 	it, ok := itemBy[size]
 	if !ok {
-		it = pconn.PaddedSession(size)
+		if size < 0 {
+			it = pconn.Junk(-size) // a negative size stands for a non-envelope JSON value of that size
+		} else {
+			it = pconn.PaddedSession(size)
+		}
 		itemBy[size] = it
 	}
 	return it
@@ -241,6 +245,18 @@ func (w *worker) check(L int64, sizes []int, its []*pconn.Item, wire []byte, pla
 				}
 			}
 			size := int64(sizes[i])
+			if size < 0 {
+				// a well-formed JSON value that is no envelope: Receive reports an error for it and
+				// the stream goes on (the budget rule applies to it like to anything else)
+				if handed > eff {
+					res = mk(i, "consumed-over-limit", fmt.Sprintf("this single Receive (of a non-envelope JSON value) consumed %d bytes, more than the limit", handed))
+					return
+				}
+				if err == nil {
+					return // accepted junk is not this property's business
+				}
+				continue
+			}
 			if handed > eff {
 				res = mk(i, "consumed-over-limit", fmt.Sprintf("this single Receive consumed %d bytes from the connection, more than the limit (it returned err=%v)", handed, err))
 				return
@@ -368,6 +384,15 @@ func enumLimit(p *pool, L int, b bounds) (streams int) {
 		}
 	}
 	rec(nil)
+	// "no matter how much data preceded it": also JSON values that are not envelopes
+	// (each is rejected by its own Receive; what follows must still be accepted)
+	for _, j := range []int{L / 2, L - 1, L} {
+		for _, s := range []int{pconn.MinSessionSize(), L / 2, L - 1, L} {
+			emit([]int{-j, s})
+			emit([]int{s, -j, s})
+			emit([]int{-j, -j, s})
+		}
+	}
 	return streams
 }
 
